@@ -196,6 +196,51 @@ def record_pool(rng, grouped=False, n_main=6):
     return pool
 
 
+# ---- deeply nested records (typed matchers must reach every level) -------------------------------------
+LEVEL_FIELDS = [("string", "s"), ("varint", "n"), ("net.ipaddress", "ip"), ("uri", "u"), ("datetime", "d"), ("float", "f"), ("wstring", "w"),
+                ("record", "sub"), ("record[]", "subs")]
+
+
+def level_values(i, salt=0):
+    """The values a record at nesting depth i carries: distinct from every other depth (and from the sibling decoys)."""
+    return {
+        "string": "lvl%d-%d" % (i, salt), "varint": 1000 + 100 * i + salt, "net.ipaddress": "10.%d.%d.1" % (20 + i, salt),
+        "uri": "http://h%d.example/dir%d/file%d-%d.txt" % (i, i, i, salt), "datetime": _dt.datetime(2001 + i, 1 + i % 12, 2, 3, 4, 5, tzinfo=_dt.timezone.utc),
+        "float": 0.5 + i + salt / 16.0, "wstring": "w%d-%d" % (i, salt),
+    }
+
+
+def deep_records(rng, n=6):
+    """-> list of (record, [values of depth 0, depth 1, ...]).  Each record is a chain of 3-4 nesting levels linked
+    through `record` or `record[]` fields (chosen per level, so record[] inside record[] occurs); record[] links also
+    hold decoy siblings without further nesting.  Every level has its own value for every scalar field type."""
+    from flow.record import RecordDescriptor
+
+    D = RecordDescriptor("sel/level", LEVEL_FIELDS)
+    LEAF = RecordDescriptor("sel/leaf", LEVEL_FIELDS[:7])
+    out = []
+    for _ in range(n):
+        depth = rng.choice([3, 4, 4])           # number of levels below the top record
+        salt = rng.randrange(1, 9)
+        levels = [level_values(i, salt) for i in range(depth + 1)]
+
+        def mk(desc, vals, **kw):
+            return desc(s=vals["string"], n=vals["varint"], ip=vals["net.ipaddress"], u=vals["uri"], d=vals["datetime"], f=vals["float"],
+                        w=vals["wstring"], **kw)
+
+        node = mk(LEAF, levels[depth])
+        for i in range(depth - 1, -1, -1):
+            decoys = [mk(LEAF, level_values(-(3 + i), salt + j)) for j in range(rng.randint(0, 2))]   # smaller than every level
+            if rng.random() < 0.5:
+                node = mk(D, levels[i], sub=node, subs=decoys)
+            else:
+                sibs = decoys + [node]
+                rng.shuffle(sibs)
+                node = mk(D, levels[i], sub=None if rng.random() < 0.5 else mk(LEAF, level_values(-(10 + i), salt)), subs=sibs)
+        out.append((node, levels))
+    return out
+
+
 def shape_of(rec):
     """Short label of a pool record's shape (coverage cells)."""
     from flow.record import GroupedRecord
